@@ -57,9 +57,32 @@ def inventory(ctx):
     return {"writable_or_unique_data_symbols_in_covfie": writable, "tls": tls, "symbols_scanned": len(out.splitlines())}
 
 
+def scheduler_model(ctx):
+    """Spin verification of the hand-off protocol of include/vp/sched.hpp (models/sched.pml): at most one thread in hook-visible
+    code, no deadlock, all workers finish. A failure here is a fault of the machinery, not of covfie."""
+    import shutil
+    d = os.path.join(ctx.build, "spin")
+    os.makedirs(d, exist_ok=True)
+    shutil.copy(os.path.join(VERIF, "models/sched.pml"), d)
+    out = {}
+    for tag, define in (("guarded", []), ("without_tl_busy_guard", ["-DNOBUSY"])):
+        r = subprocess.run(["spin", "-a"] + define + ["sched.pml"], cwd=d, capture_output=True, text=True)
+        c = subprocess.run(["gcc", "-O2", "-DSAFETY", "-o", "pan_" + tag, "pan.c"], cwd=d, capture_output=True, text=True)
+        if r.returncode or c.returncode:
+            return {"error": (r.stdout + r.stderr + c.stderr)[-300:]}
+        v = subprocess.run(["./pan_" + tag, "-m100000"], cwd=d, capture_output=True, text=True).stdout
+        m = re.search(r"errors: (\d+)", v)
+        st = re.search(r"(\d+) states, stored", v)
+        out[tag] = {"errors": int(m.group(1)) if m else -1, "states": int(st.group(1)) if st else 0}
+    return out
+
+
 def run(ctx):
     thorough = ctx.tier == "thorough"
     inv = inventory(ctx)
+    model = scheduler_model(ctx)
+    if "error" in model or model["guarded"]["errors"] != 0 or model["without_tl_busy_guard"]["errors"] < 1:
+        raise RuntimeError("scheduler protocol model does not verify as expected: %r" % (model,))
     js = []
     bound, cap = (3, 400000) if thorough else (2, 60000)
     for layer, extra in LAYERS:
@@ -141,6 +164,7 @@ def run(ctx):
         "schedules_with_function_entry_points": fn_scheds,
         "coldstart_schedules_each_in_a_fresh_process": cold_scheds, "coldstart_preemption_bound": cold_bound,
         "static_state_inventory": inv,
+        "scheduler_protocol_model_spin": model,
         "tsan_runs": [j.name for j in js if j.name.startswith("tsan")],
     })
     if inv and (inv["writable_or_unique_data_symbols_in_covfie"] or inv["tls"]):
